@@ -18,6 +18,7 @@ import os
 import shutil
 import subprocess
 import time
+from concurrent.futures import ThreadPoolExecutor
 
 from .. import build, core, runner
 from .. import gen_modgraph as G
@@ -399,18 +400,18 @@ def process(cx, cases, tag, node_subset=None):
     """runs cases on boa (all) and node (all, or the indices in node_subset) and judges them"""
     jobs = [c["job"] for c in cases]
     t0 = time.time()
-    rb = runner.run_bvh(cx.binary, "modules", jobs, "c17" + tag, timeout=30)
-    t1 = time.time()
-    if node_subset is None:
-        rn = run_node_modules(jobs, tag)
-    else:
-        sub = sorted(node_subset)
-        part = run_node_modules([jobs[i] for i in sub], tag)
-        rn = [None] * len(jobs)
-        for i, r in zip(sub, part):
-            rn[i] = r
+    sub = list(range(len(jobs))) if node_subset is None else sorted(node_subset)
+    with ThreadPoolExecutor(1) as ex:
+        # node (6 processes) runs next to boa (one process per core)
+        fut = ex.submit(run_node_modules, [jobs[i] for i in sub], tag) if sub else None
+        rb = runner.run_bvh(cx.binary, "modules", jobs, "c17" + tag, timeout=30)
+        t1 = time.time()
+        part = fut.result() if fut else []
+    rn = [None] * len(jobs)
+    for i, r in zip(sub, part):
+        rn[i] = r
     t2 = time.time()
-    cx.phase[tag] = {"boa_s": round(t1 - t0, 1), "node_s": round(t2 - t1, 1), "cases": len(cases)}
+    cx.phase[tag] = {"boa_s": round(t1 - t0, 1), "both_s": round(t2 - t0, 1), "cases": len(cases)}
     for case, b, n in zip(cases, rb, rn):
         record(cx, case, b, n)
 
@@ -478,11 +479,13 @@ def process_batched(cx, specs, tag, size, with_node):
         layout.append((len(cases), counts, ["g%d_" % k for k in range(len(part))]))
         cases += part
     t0 = time.time()
-    rb = runner.run_bvh(cx.binary, "modules", jobs, "c17" + tag, timeout=60)
-    t1 = time.time()
-    rn = run_node_modules(jobs, tag, timeout_ms=5000) if with_node else [None] * len(jobs)
+    with ThreadPoolExecutor(1) as ex:
+        fut = ex.submit(run_node_modules, jobs, tag, NODE_SHARDS, 5000) if with_node else None
+        rb = runner.run_bvh(cx.binary, "modules", jobs, "c17" + tag, timeout=60)
+        t1 = time.time()
+        rn = fut.result() if fut else [None] * len(jobs)
     t2 = time.time()
-    cx.phase[tag] = {"boa_s": round(t1 - t0, 1), "node_s": round(t2 - t1, 1), "cases": len(cases), "jobs": len(jobs)}
+    cx.phase[tag] = {"boa_s": round(t1 - t0, 1), "both_s": round(t2 - t0, 1), "cases": len(cases), "jobs": len(jobs)}
     redo = []
     for (start, counts, pres), b, n in zip(layout, rb, rn):
         sb = _split(b, counts, pres)
@@ -515,6 +518,8 @@ def record(cx, case, b, n):
     if inconc:
         cx.chk.inconc(inconc)
     cx.hist["invariant_checked"] += 1
+    if case["spec"].get("kind") == "exhaustive":
+        cx.hist["exhaustive_checked"] = cx.hist.get("exhaustive_checked", 0) + 1
     trace = b.get("trace", [])
     ran = _bodies(trace)
     for f in meta["features"]:
@@ -699,6 +704,7 @@ def run(tier, seed):
         samples=cx.samples,
         extra={
             "exhaustive": {"max_nodes": 4 if thorough else 3, "graphs_x_entries": n_exh, "behaviour_classes": n_reps, "classes_run_on_node": n_node,
+                           "sub_space_complete": cx.hist.get("exhaustive_checked", 0) == n_exh,
                            "complete_for": "synchronous bodies, bare imports in increasing target order"},
             "histograms": cx.hist,
             "avoid_flags": sorted(avoid),
